@@ -17,10 +17,20 @@ theorem ioworker_drained (ops : List Op) (h : (run ops).sendBuf = []) : (run ops
   have := ioworker_stream ops; rw [h] at this; simpa using this
 
 /-- **ioworker_after_fatal**: close is reported exactly once after a fatal error (never otherwise) and no `socket.send`
-is attempted on a closed worker. -/
+is attempted on a closed worker — whichever way it was closed: a fatal send error in `_do_send`/`send_fast`, or end of
+stream / a receive error in `_do_recv` earlier in the very pass in which the worker was also reported writable (`pumpRW`;
+this case needs `_do_send`'s test of `self.closed`, repair C20-2, see `ioworker_unguarded_defect`). -/
 theorem ioworker_after_fatal (ops : List Op) :
     (run ops).closeEvents = (if (run ops).closed then 1 else 0) ∧ (run ops).offeredAfterClose = 0 :=
   ⟨(run_inv ops).once, (run_inv ops).quiet⟩
+
+/-- without the test in `_do_send` (the code before repair C20-2): a receive error closes the worker and, in the same
+pass, its buffer is still offered to the socket, which may even take it -/
+theorem ioworker_unguarded_defect :
+    (runWith false [.send [1,2], .pumpRW .error (.accept 9)]).offeredAfterClose = 1 ∧
+    (runWith false [.send [1,2], .pumpRW .error (.accept 9)]).accepted = [1,2] ∧
+    (runWith true [.send [1,2], .pumpRW .error (.accept 9)]).offeredAfterClose = 0 ∧
+    (runWith true [.send [1,2], .pumpRW .error (.accept 9)]).closeEvents = 1 := by decide
 
 /-- **ctl_stream**: in every reachable state of the two-actor system, while the connection is up, socket-accepted bytes
 ++ deferred queue ++ the in-flight message = everything queued; and always the accepted bytes are a prefix of it. -/
